@@ -8,6 +8,7 @@ residue.  For the reachable states outside `Storable…` the negation is proved 
 KNOWN_FINDINGS.json).
 -/
 import LimnoriaModel.C16.Lemmas
+import LimnoriaModel.C16.Reload
 namespace C16
 open Py
 
@@ -286,5 +287,47 @@ example : storableIgnores 1000 [("a!b@c".toList, 0), ("*!*@x".toList, 2000), ("#
 /-- finding C16-ignore-hostmask-hash -/
 theorem ignores_hash_hostmask_lost :
     loadIgnores (dumpIgnores E0 [("#a!b@c".toList, 0), ("x!y@z".toList, 0)]) = [("x!y@z".toList, 0)] := by decide
+
+/-! ## outside Storable, what can still be said (used by C02)
+
+Leading blanks, TABs, keywords inside fields, a hostmask ending in LF, names that make the loader
+raise: none of these can make the reader *add* anything to an account's capabilities. -/
+
+/-- **A reload never adds a capability.**  If no stored field contains a line break (`SafeUser`;
+a hostmask may end with one LF) then, whether or not the load completes and whatever half-built
+record an earlier failed load left behind (`CuOk`), every capability of every loaded account was
+a capability of the same account in the database that was written. -/
+theorem users_reload_no_new_capability (E : Env) (cu0 : Option CU) (db : UsersDb) (hcu : CuOk cu0)
+    (hsafe : ∀ p ∈ db.users, SafeUser p.2) :
+    ∀ p ∈ (loadUsers E cu0 (dumpUsers db)).1.db.users, ∀ x ∈ p.2.caps, ∃ u, (p.1, u) ∈ db.users ∧ x ∈ u.caps :=
+  load_caps_sub E cu0 db hcu hsafe
+
+/-- non-vacuity: the hypothesis holds for a database with a leading blank, a TAB, a hostmask ending
+in LF, and for a half-built record without id -/
+example : (∀ p ∈ [(1, ({ name := " a\tb".toList, caps := ["owner".toList], hostmasks := ["a!b@c\n".toList] } : User))],
+    SafeUser p.2) ∧ CuOk (some { id := none, u := { name := "left".toList } }) := by
+  refine ⟨?_, ?_⟩
+  · intro p hp
+    simp only [List.mem_singleton] at hp
+    subst hp
+    exact ⟨by decide, by decide, by decide, by decide, by decide, by decide⟩
+  · intro c hc _
+    simp only [Option.some.injEq] at hc
+    subst hc
+    rfl
+
+/-- the hypothesis is needed: with a line break in a field (the defect repaired in
+`User.register`/`setUser`) the reader does add a capability -/
+theorem users_linebreak_injects :
+    (loadUsers E0 none (dumpUsers ⟨[(1, { name := "x\n  capability owner".toList })], 1⟩)).1.db.users =
+      [(1, { name := "x".toList, caps := ["owner".toList] })] := by
+  decide
+
+/-- **Whatever the file contains**, every loaded field is free of line breaks and every loaded
+capability is a clean lower-case word (so the hypothesis above holds again after any load). -/
+theorem users_loaded_fields_safe (E : Env) (cu0 : Option CU) (text : Str)
+    (h0 : ∀ c, cu0 = some c → SafeUser c.u) (hcu : CuOk cu0) :
+    SafeState (loadUsers E cu0 text).1 :=
+  load_safe E cu0 text h0 hcu
 
 end C16
